@@ -9,7 +9,8 @@ CONSTANT Shape        \* with Systematic: {} = the shape above, or the set of st
                       \* steps being non-build actions, e.g. {1, 3, 5} = build; action; build; action; build
 CONSTANT Canonical    \* with Systematic, a selection of the histories above that reaches three- and four-action combinations without
                       \* their permutations: "off"; "kinds" = the non-build actions come in a fixed order of kinds, one per kind;
-                      \* "sink" = in increasing order of (kind, target), edits only of the last target, perturbations only deletions
+                      \* "sink" = in increasing order of (kind, target), edits only of the last target, perturbations only deletions;
+                      \* "first" = edits only of the first target
 VARIABLE hist
 
 S(v) == ToString(v)
@@ -37,6 +38,7 @@ CanonOK ==
                                  \/ KindRank(last.kind) = KindRank(last'.kind) /\ HasT(last) /\ HasT(last') /\ Pos(last.t) < Pos(last'.t)
                               /\ last'.kind = "edit" => last'.t = Order[Len(Order)]
                               /\ last'.kind = "perturb" => ws'[last'.t] = Absent
+    [] Canonical = "first" -> last'.kind = "edit" => last'.t = Order[1]      \* edits only of the first target, in any order
     [] OTHER -> TRUE
 GInit == Init /\ hist = << [alias0 |-> alias, files0 |-> files] >>
 MustBuild == steps % 3 = 2 \/ steps = MaxSteps - 1
